@@ -81,6 +81,8 @@ def classify(c, fails, rr):
     a = c['a']
     if c['tpl'] == 'emb' and c['mode'] == 'ew' and a.get('pad') is not None and all('emb.weight' in f[1] for f in fails):
         return 'ew-embedding-padding-row'
+    if c['tpl'] == 'emb' and c['mode'] == 'ew' and a.get('freq') and a.get('pad') is None and all('emb.weight' in f[1] for f in fails):
+        return 'ew-embedding-scale-grad-by-freq'
     if c['tpl'] == 'rnn' and a.get('packed') and all('rnn.' in f[1] for f in fails if f[0] in ('per-sample',)) and not any(f[0] in ('sum', 'missing', 'shape', 'frozen') for f in fails):
         return 'rnn-packed-unsorted-row-order'
     return 'per-sample-gradient:' + fails[0][0]
@@ -181,7 +183,7 @@ def run(ctx, gen_status):
 
 
 def search(ctx):
-    known = {'ew-embedding-padding-row', 'rnn-packed-unsorted-row-order'}
+    known = {'ew-embedding-padding-row', 'ew-embedding-scale-grad-by-freq', 'rnn-packed-unsorted-row-order'}
     if all(f['key'] in known for f in ctx.failures) and not ctx.broken:
         return
     run_cases(ctx, 300)
@@ -193,6 +195,6 @@ def replay_case(ctx, failure):
         return False, c
     rr = vlib.run_impl('gs_runs.py', {'cases': [c]})['results'][0]
     bad = rr.get('error') or (rr.get('fails') if rr.get('accepted') else None)
-    if bad and not rr.get('error') and classify(c, rr['fails'], rr) in ('ew-embedding-padding-row', 'rnn-packed-unsorted-row-order'):
+    if bad and not rr.get('error') and classify(c, rr['fails'], rr) in ('ew-embedding-padding-row', 'ew-embedding-scale-grad-by-freq', 'rnn-packed-unsorted-row-order'):
         return True, 'known finding: ' + str(bad)[:300]
     return not bad, bad or 'holds'
